@@ -4,7 +4,6 @@ from __future__ import annotations
 
 import io
 import os
-from collections import Counter
 import random
 import shutil
 import struct
@@ -21,29 +20,38 @@ NEEDS_RUST = True
 AUTO_TWINS = True
 RULE = (
     "Hypothesis-generated closed object sets (0..40 objects by construction: blob families made of small edits so deltas "
-    "pay off, blobs at the size-varint boundaries 15/16, 2047/2048, 2^18+-1 and around 64 KiB, trees/commits/tags on "
-    "top, duplicated content) x a drawn permutation x write options.  Checks: [write] write_pack / write_pack_objects + "
-    "write_pack_index(v1/v2/v3) with deltify/window/compression level/SHA-1|SHA-256/path hints; [records] "
-    "write_pack_data over hand-built UnpackedObjects (REF deltas whose base comes later, OFS when earlier, chains, "
-    "copies > 64 KiB); [store] DiskObjectStore.add_objects/add_pack_data with configured index version; [gitpack] packs "
-    "made by `git pack-objects` (--depth 0..50, --window, --delta-base-offset on/off, --thin --revs) read through "
-    "git's idx, PackData.create_index(v1/v2/v3), add_pack and add_thin_pack (short reads); [reuse] "
-    "write_pack_from_container with reuse_deltas from a store holding git-made delta packs (subset, other_haves -> "
-    "thin); [idx] synthetic index tables with offsets around 2^31..2^63-1.  Every pack/idx dulwich writes is parsed by "
-    "an independent reader (trailers, CRCs, fan-out, offsets, 64-bit table, mapping == input), must be byte-identical "
-    "to what `git index-pack` writes for v1/v2, is verified by git verify-pack/cat-file/fsck, and is read back by "
-    "dulwich by random access (drawn order, twice), iteration, iter_unpacked, sorted_entries, check().  Non-trivial = "
-    ">= 2 objects and one of {delta emitted, OFS and REF in one pack, chain depth >= 3, size-boundary object, split "
-    "copy, large offset, idx v1/v3, SHA-256, git-made chain depth >= 10}; distinct by full case encoding."
+    "pay off, blobs at the size-varint boundaries 15/16, 2047/2048, 2^18+-1 and around 64 KiB, explicit copy/insert "
+    "targets with copies > 64 KiB and 1..3-byte offsets, trees/commits/tags on top, blobs whose bytes equal a "
+    "tree/commit/tag of the set, duplicated content) x a drawn permutation x options.  Checks: [write] write_pack / "
+    "write_pack_objects + write_pack_index(v1/v2/v3) with deltify/window/compression level -1..9/SHA-1|SHA-256/path "
+    "hints; [records] write_pack_data over hand-built UnpackedObjects (REF deltas whose base comes later, OFS when "
+    "earlier, chains, split copies; iterator/list/file targets); [store] DiskObjectStore.add_objects/add_pack_data with "
+    "configured index version; [gitpack] packs made by `git pack-objects --threads=1` (--depth 0..50, --window, "
+    "--delta-base-offset on/off, --thin --revs; chains of 60/120/250 growing versions give depth up to 50) read through "
+    "git's idx (v1/v2), PackData.create_index(v1/v2/v3), add_pack and add_thin_pack (drawn short reads, bases loose or "
+    "packed); [reuse] write_pack_from_container with reuse_deltas/deltify from a store holding git-made delta packs "
+    "and loose objects (subset, other_haves -> thin output); [idx] synthetic index tables with offsets around 2^31 .. "
+    "2^63-1.  Every pack/idx dulwich writes is parsed by an independent reader (trailers, per-object CRCs, fan-out, "
+    "strictly increasing names, offsets = object starts, 64-bit table used exactly for offsets >= 2^31, mapping == "
+    "input), must be byte-identical to what `git index-pack` writes for v1/v2 (reference writer and the real git), is "
+    "verified by git index-pack --strict / verify-pack -v / cat-file --batch / fsck, and is read back by dulwich by "
+    "random access (drawn order, every id twice, hex and binary, 50 absent ids + the bytes behind the name table), "
+    "iteration, iter_unpacked, sorted_entries, iterentries, check().  Non-trivial = >= 2 objects and one of {delta "
+    "emitted, OFS and REF in one pack, chain depth >= 3, size-boundary object, split copy, large offset, idx v1/v3, "
+    "SHA-256, git-made chain depth >= 10}; distinct by full case encoding."
 )
 ASSUMPTIONS = [
     "git 2.39.5 is the reference pack/idx reader and writer; the independent reader/writer (vf/model/c02_packref.py, "
-    "packfmt.py) is self-tested against it in every run",
+    "packfmt.py) is self-tested against it in every run (both hash algorithms, every delta kind, 64-bit offsets via show-index)",
     "idx v3 is dulwich's own layout (git 2.39 has none): only structure and dulwich round trip are checked for it",
-    "pure-Python deltification is quadratic: sets given to deltify are <= 12 objects of <= 8 KiB",
+    "deltification cost (difflib quadratic, debug-profile Myers (N+M)*D): sets given to deltify are <= 12 objects, "
+    "unrelated blobs <= 600 bytes, a single family of near-identical blobs <= 4 KiB; > 64 KiB copies reach the writers "
+    "through hand-built records and reused git-made deltas (dulwich's own create_delta at that size is C03's)",
     "a sequence that contains the same object twice is not a set: generated under label duplicate-input, outcome "
-    "recorded, never alarmed",
+    "recorded (dulwich refuses its own pack, git accepts it), never alarmed",
     "SHA-256 object ids are computed by the harness (ShaFile.id is SHA-1 by design)",
+    "packs > 2 GiB are not written: 64-bit offsets are exercised through synthetic index tables only",
+    "quick tier does not shrink (a deltifying case costs up to seconds): the smallest failing case per bucket is kept",
 ]
 
 BOUNDARY = {15, 16, 2047, 2048, (1 << 18) - 1, 1 << 18}
@@ -1516,15 +1524,15 @@ def _part(ctx, item):
         for v in vs:
             ctx.record_violation(v.bucket, "(did not repeat on immediate re-execution) " + v.message, v.check, v.case)
     t = time.time() - t
-    ctx.extra[f"cpu_s_{name}"] = round(ctx.extra.get(f"cpu_s_{name}", 0) + t, 1)
-    ctx.extra.setdefault("slowest_shard_s", Counter())[f"{name}@{ctx.shard}"] = round(t, 1)
+    ctx.extra[f"shard_wall_sum_s_{name}"] = round(ctx.extra.get(f"shard_wall_sum_s_{name}", 0) + t, 1)
 
 
 def run(ctx):
     selftest(ctx)
     ctx.note("git_version", cgit.version())
-    budget = dict(write=ctx.scale(32, 800), records=ctx.scale(32, 800), store=ctx.scale(16, 400), gitpack=ctx.scale(24, 600),
-                  reuse=ctx.scale(20, 500), idx=ctx.scale(60, 1500))
+    # quick: ~110 CPU-seconds in total (7-10 s wall on 16 idle cores; the machine is usually shared)
+    budget = dict(write=ctx.scale(26, 800), records=ctx.scale(26, 800), store=ctx.scale(12, 400), gitpack=ctx.scale(20, 600),
+                  reuse=ctx.scale(16, 500), idx=ctx.scale(48, 1500))
     # one item per (check, shard): dealt round-robin, every worker runs one shard of every check
     ctx.parallel(_part, [(name, n) for name, n in budget.items() for _ in range(16)])
 
